@@ -460,6 +460,18 @@ let op_realign = function
            | Realign.RB (i, j) -> "B" ^ string_of_int (int_of_nat i) ^ ":" ^ string_of_int (int_of_nat j)) rows))
   | _ -> "BADARGS"
 
+(* pairing <m> <p> <rows of 0/1, one row per removed line, separated by ','> -> alignment entries *)
+let op_pairing = function
+  | [ m; p; rows ] ->
+      let mx = if rows = "" then [] else
+          L.map (fun r -> L.init (S.length r) (fun i -> S.get r i = '1')) (S.split_on_char ',' rows) in
+      let al = Pairing.line_alignment (Pairing.close_of mx) (nat_of_int (int_of_string m)) (nat_of_int (int_of_string p)) in
+      "OK\t" ^ S.concat "," (L.map (function
+          | Realign.EL i -> string_of_int (int_of_nat i) ^ "-"
+          | Realign.ER j -> "-" ^ string_of_int (int_of_nat j)
+          | Realign.EB (i, j) -> string_of_int (int_of_nat i) ^ "-" ^ string_of_int (int_of_nat j)) al)
+  | _ -> "BADARGS"
+
 (* blame_run n keys gitflags *)
 let op_blame_run = function
   | [ n; keys; flags ] ->
@@ -482,6 +494,7 @@ let op_blame_spec = function
 let dispatch = function
   | "wrap_line" :: args -> op_wrap_line args
   | "truncate" :: args -> op_truncate args
+  | "pairing" :: args -> op_pairing args
   | "realign" :: args -> op_realign args
   | "superimpose" :: args -> op_superimpose args
   | "pager_select" :: args -> op_pager_select args
